@@ -62,7 +62,7 @@ REG.contract(
     prop_clauses=["init.noparent"])
 
 
-@REG.bounded_check("C13/bounded/bfs", ["C13"])
+@REG.bounded_check("C13/bounded/bfs", ["C13", "C04"])
 def bounded_bfs(repo_dir):
     """BOUNDED stand-in (never counted as proved): the real _find_sections / _find_sources on every ordered forest
     with <= N nodes (N = 5 quick, 6 thorough), start = container or node, every limit 0..N+1 and None-equivalent,
